@@ -1,11 +1,10 @@
 #!/bin/bash
 # Build the framework from files on disk only (offline): translator -> coq/gen, then the whole Coq development.
-set -e
 cd /verif
 export PYTHONPATH=/repo:/verif/tools PYTHONHASHSEED=0 PYTHONDONTWRITEBYTECODE=1
 mkdir -p coq/gen evidence replays .work
 /venv/bin/python tools/vf/facts.py || echo "setup: translator reported errors (checks will report them per property)"
+/venv/bin/python -c "from vf import core; core._ensure_makefile()" || exit 1
 cd coq
-coq_makefile -f _CoqProject -o Makefile
-rm -f .Makefile.d
 timeout 3000 make -j16 -k || echo "setup: some Coq files did not build (checks will report them per property)"
+exit 0
